@@ -9,7 +9,8 @@
 #include "express/schema.h"
 #include "express/express.h"
 #include "express/resolve.h"
-char DICT_type;
+char DICT_type; int __SCOPE_search_id;
+static int RENAME_search_id;      /* file-scope search mark of express.c (declaration outside the extracted functions) */
 static long d_other, d_behind, d_uo, d_ub;
 static Dictionary g_has[2] = { (Dictionary)&d_other, (Dictionary)&d_behind }; static int g_found_in; static long g_obj; static char g_obj_type;
 void *DICTlookup(Dictionary d, char *name) { (void)name; if ((d == g_has[0] && g_found_in == 0) || (d == g_has[1] && g_found_in == 1)) { DICT_type = g_obj_type; return &g_obj; } return 0; }
@@ -25,7 +26,7 @@ void SCHEMAdefine_reference(Schema s, Rename *r) { g_ref_calls++; g_def_schema =
 #include "rename_extract.inc"
 
 static struct Scope_ here, other, behind; static struct Schema_ so, sb; static struct Linked_List_ l_use_o, l_use_b, l_ul_o, l_ul_b; static struct Link_ m1, m2, m3, m4, k1;
-static void rename_body(int in_chain)
+static void rename_body(int in_chain)   /* 0: O alone; 1: O fully USEs B; 2: O and B fully USE each other; 3: O's USE list holds an undefined schema (null) */
 {
     IN(int, in_where); IN(int, in_kind); IN(int, in_state);
     __CPROVER_assume(in_where >= -1 && in_where <= 1 && (in_kind == use || in_kind == ref) && in_state >= 0 && in_state <= 3);
@@ -34,8 +35,9 @@ static void rename_body(int in_chain)
     other.u.schema = &so; behind.u.schema = &sb; other.symbol_table = (Dictionary)&d_other; behind.symbol_table = (Dictionary)&d_behind;
     so.usedict = (Dictionary)&d_uo; sb.usedict = (Dictionary)&d_ub;
     /* O fully USEs B when in_chain; no partial USE lists */
-    l_use_o.mark = &m1; if (in_chain) { m1.next = &k1; m1.prev = &k1; k1.next = &m1; k1.prev = &m1; k1.data = &behind; } else { m1.next = &m1; m1.prev = &m1; }
-    l_use_b.mark = &m2; m2.next = &m2; m2.prev = &m2; l_ul_o.mark = &m3; m3.next = &m3; m3.prev = &m3; l_ul_b.mark = &m4; m4.next = &m4; m4.prev = &m4;
+    l_use_o.mark = &m1; if (in_chain) { m1.next = &k1; m1.prev = &k1; k1.next = &m1; k1.prev = &m1; k1.data = in_chain == 3 ? (void *)0 : (void *)&behind; } else { m1.next = &m1; m1.prev = &m1; }
+    l_use_b.mark = &m2; if (in_chain == 2) { static struct Link_ k2; m2.next = &k2; m2.prev = &k2; k2.next = &m2; k2.prev = &m2; k2.data = &other; } else { m2.next = &m2; m2.prev = &m2; }
+    other.search_id = 0; behind.search_id = 0; __SCOPE_search_id = 5; l_ul_o.mark = &m3; m3.next = &m3; m3.prev = &m3; l_ul_b.mark = &m4; m4.next = &m4; m4.prev = &m4;
     so.use_schemas = &l_use_o; sb.use_schemas = &l_use_b; so.uselist = &l_ul_o; sb.uselist = &l_ul_b;
     g_found_in = in_where; g_obj_type = OBJ_ENTITY;
     old.name = item; old.line = 7; old.resolved = in_state == 1 ? RESOLVE_FAILED : in_state == 2 ? RESOLVE_IN_PROGRESS : 0;
@@ -44,7 +46,7 @@ static void rename_body(int in_chain)
     RENAMEresolve(&r, &here);
     if (in_state == 3 || in_state == 1) { __CPROVER_assert(g_rep_calls == 0 && g_use_calls + g_ref_calls == 0, "an item that is already resolved, or already failed, is left alone"); return; }
     if (in_state == 2) { __CPROVER_assert(g_rep_calls == 1 && g_rep_code == CIRCULAR_REFERENCE && g_rep_sym == &old && g_rep_a1 == item && (old.resolved & RESOLVE_FAILED), "C04/C20 an item whose resolution is already under way is a circular reference: reported once at the item, quoting it, and marked failed"); return; }
-    int reachable = in_where == 0 || (in_where == 1 && in_chain);
+    int reachable = in_where == 0 || (in_where == 1 && (in_chain == 1 || in_chain == 2));
     if (reachable) {
         __CPROVER_assert(g_rep_calls == 0 && r.object == &g_obj && r.type == OBJ_ENTITY, "an item that the other schema declares (or fully USEs from a third schema) is resolved silently to that object");
         __CPROVER_assert((in_kind == use ? g_use_calls : g_ref_calls) == 1 && (in_kind == use ? g_ref_calls : g_use_calls) == 0 && g_def_schema == &here && g_def_rename == &r, "the item is entered into the interfacing schema as what it is: USEd or REFERENCEd");
@@ -57,3 +59,5 @@ static void rename_body(int in_chain)
 
 void h_RENAMEresolve(void) { rename_body(0); }
 void h_RENAMEresolve_chain(void) { rename_body(1); }
+void h_RENAMEresolve_cycle(void) { rename_body(2); }     /* C06: schemas that USE each other: the search for a name that neither has must end */
+void h_RENAMEresolve_undefined_schema(void) { rename_body(3); }   /* C06: a USE list entry for an undefined schema is null */
